@@ -9,6 +9,7 @@ import (
 	"sync"
 	"time"
 
+	sasl "github.com/emersion/go-sasl"
 	smtp "github.com/emersion/go-smtp"
 )
 
@@ -33,6 +34,8 @@ type TripCase struct {
 	LMTP   bool
 	Calls  []TripCall
 	Extra  []*Sx
+	// PreAuth: the client authenticates (AUTH PLAIN) before the scripted calls; not a recorded call
+	PreAuth bool
 }
 
 type teeConn struct {
@@ -131,6 +134,10 @@ func RunTrip(c TripCase) *Sx {
 	results := L()
 	calls := L()
 	cbs := L()
+	preAuth := A("none")
+	if c.PreAuth {
+		preAuth = resSx(cl.Auth(sasl.NewPlainClient("", "user", "pass")))
+	}
 	for _, k := range c.Calls {
 		var err error
 		switch k.Kind {
@@ -229,6 +236,9 @@ func RunTrip(c TripCase) *Sx {
 	res := L(A("trip"), c.Cfg.Sx(), c.Script.Sx(), L(A("lmtp"), B(c.LMTP)), L(A("calls"), calls),
 		L(A("obs"), L(A("results"), results), L(A("events"), evs), L(A("callbacks"), cbs), L(A("sent"), X(in)),
 			L(A("panics"), Num(int64(lg.count("panic serving"))))))
+	if c.PreAuth {
+		res.Add(L(A("preauth"), preAuth))
+	}
 	if len(c.Extra) > 0 {
 		res.Add(L(append([]*Sx{A("expect")}, c.Extra...)...))
 	}
@@ -480,6 +490,33 @@ func GenTrip(rng *rand.Rand, thorough bool, emit func(*Sx)) {
 		}
 		calls = append(calls, TripCall{Kind: "data", Parts: [][]byte{[]byte("Subject: " + strings.Repeat("s", 69) + "\r\nbody\r\n")}, Closes: 1}, TripCall{Kind: "noop"}, TripCall{Kind: "quit"})
 		emit(RunTrip(TripCase{Cfg: cfg, Calls: calls, Extra: []*Sx{L(A("focus"), A("C16"))}}))
+	}
+
+	// ---- C14: an authenticated client, several transactions with Reset (which makes the client say EHLO again) ----
+	for _, lmtp := range []bool{false, true} {
+		for _, pre := range []bool{true, false} {
+			for variant := 0; variant < 3; variant++ {
+				cfg := fullCfg(lmtp)
+				a1, a2 := "first@auth.example", "second+3D@auth.example"
+				empty := ""
+				mo1 := &smtp.MailOptions{Auth: &a1, EnvelopeID: "e1", Return: smtp.DSNReturnFull, Size: 10}
+				mo2 := &smtp.MailOptions{Auth: &a2, EnvelopeID: "e2", Return: smtp.DSNReturnHeaders, UTF8: true}
+				mo3 := &smtp.MailOptions{Auth: &empty, Size: 3}
+				ro := &smtp.RcptOptions{Notify: []smtp.DSNNotify{smtp.DSNNotifyFailure}, OriginalRecipientType: smtp.DSNAddressTypeRFC822, OriginalRecipient: "o@x"}
+				calls := []TripCall{{Kind: "mail", Arg: "s1@x", MO: mo1}, {Kind: "rcpt", Arg: "r1@x", RO: ro}}
+				switch variant {
+				case 0:
+					calls = append(calls, TripCall{Kind: "reset"})
+				case 1:
+					calls = append(calls, TripCall{Kind: "data", Parts: [][]byte{[]byte("one\r\n")}, Closes: 1}, TripCall{Kind: "reset"})
+				case 2:
+					calls = append(calls, TripCall{Kind: "reset"}, TripCall{Kind: "reset"}, TripCall{Kind: "noop"})
+				}
+				calls = append(calls, TripCall{Kind: "mail", Arg: "s2@x", MO: mo2}, TripCall{Kind: "rcpt", Arg: "r2@x", RO: ro},
+					TripCall{Kind: "reset"}, TripCall{Kind: "mail", Arg: "s3@x", MO: mo3}, TripCall{Kind: "rcpt", Arg: "r3@x"}, TripCall{Kind: "quit"})
+				emit(RunTrip(TripCase{Cfg: cfg, LMTP: lmtp, Calls: calls, PreAuth: pre, Extra: []*Sx{L(A("focus"), A("C14"))}}))
+			}
+		}
 	}
 
 	// ---- C17: backend errors at the four callbacks ----
